@@ -56,7 +56,8 @@ WALL_CAP = {'quick': 150, 'thorough': 1500}
 STATIC = ('capture', 'off', 'status', 'stop-current', 'stop-all')
 FILES = ['on-all.ls', 'fade_to_dark.ls', 'night-light.ls', 'cycle.ls',
          'a&b.ls', '<i>x.ls', 'say "hi".ls', "it's.ls", 'two words.ls',
-         '-dash.ls', 'dots.in.name.ls', 'noext', 'UPPER.LS', 'x.ls.ls']
+         '-dash.ls', 'dots.in.name.ls', 'noext', 'UPPER.LS', 'x.ls.ls',
+         'fade--slow.ls', '__private.ls', 'a_-b_.ls', 'mIxEd_cAsE-9lives.ls']
 COLOURS = ['Linen', '#222', 'rgb(21, 139, 168)', '"><script>',
            "a'b", 'x&y']
 
@@ -309,7 +310,8 @@ def execute(scenario, chooser):
                              'file': last_open[-1] if last_open else None,
                              'program_len': len(job.program or [])
                              if job is not None and hasattr(job, 'program')
-                             else None})
+                             else None,
+                             'listing': _listing_of(job)})
 
             def add_job(self, job, name=None):
                 self._rec('add', name, job)
@@ -418,6 +420,19 @@ def execute(scenario, chooser):
 
     def w_execute(orig):
         def execute(self):
+            # what starts executing is what was loaded for the request
+            for j in reversed(st.get('jlog', [])):
+                if j.get('job_id') == id(self):
+                    now = _listing_of(self)
+                    if j.get('listing') is not None and now != j['listing']:
+                        violation('program-changed-while-queued',
+                                  'the job handed over for {!r} (file {!r}) '
+                                  'starts executing a program of {} '
+                                  'instructions that differs from the {} '
+                                  'instructions loaded for it'.format(
+                                      j['name'], j['file'], len(now or []),
+                                      len(j['listing'])))
+                    break
             busy = st.setdefault('executing', set())
             busy.add(id(self))
             try:
@@ -759,6 +774,13 @@ def judge(sc, obs, st, violation, probes, res):
                      'requests': [(o['path'], o['status'],
                                    [j['op'] for j in o['jobs']])
                                   for o in obs]}
+
+
+def _listing_of(job):
+    if job is None or not hasattr(job, 'program') or job.program is None:
+        return None
+    from checks.c17_history import listing
+    return listing(job.program)
 
 
 def _running_now(o, st):
